@@ -341,6 +341,24 @@ func c19Run(ctx *core.Ctx) {
 			}
 		}
 	}
+	// ---- names: table and column names with characters that mean something to printf, SQL or the escaping
+	nameAlpha := []string{"a", "growth%", "100%done", "%s", "%d%%", "%!v", "a'b", "semi;colon", "x,y", "(p)", "?", "\u00fcn\u00ef", "a.b", "-- c"}
+	for _, table := range nameAlpha {
+		for _, n1 := range nameAlpha {
+			for _, n2 := range []string{"z", "%v", "%[1]s"} {
+				for _, esc := range []string{"", `"`, "`"} {
+					if !ctx.Mine() {
+						continue
+					}
+					f := model.Frame{N: 2, Cols: []model.Col{
+						{Name: n1, Kind: model.Int, Cells: []model.Cell{model.I(1), model.I(-2)}},
+						{Name: n2, Kind: model.String, Cells: []model.Cell{model.S("%s"), model.Null()}},
+					}}
+					execT(toSQLCase{Kind: "tosql", Frame: f, Shape: int(ctx.Index() % int64(model.NShapes)), Escape: esc, Table: table})
+				}
+			}
+		}
+	}
 	// ---- ReadSQL: all result sets with <= 3 columns and <= 4 rows (quick: <= 2 columns, <= 3 rows; 3 columns with 2 rows)
 	execR := func(c readSQLCase) {
 		ctx.Exec(c, func() *core.Failure { return runReadSQLCase(c) })
